@@ -151,7 +151,7 @@ package slice
 //@   loop 1: invariant above: forall k int :: {vs[k]} high <= k && k < len(vs) ==> apply(cmp, vs[k], target) > 0
 //@   loop 1: decreases high - low
 //@
-//@ pred chainOK(vs Slice, cmp func(T, T) int, prev []int, cl imap[int], m int, L int, strict bool) := forall x int :: {prev[x]} 0 <= x && x < m ==> 1 <= cl[x] && cl[x] <= L && (prev[x] == -1 <==> cl[x] == 1)
+//@ pred chainOK(vs Slice, cmp func(T, T) int, prev []int, cl imap[int], m int, L int, strict bool) := forall x int :: {prev[x]} {cl[x]} 0 <= x && x < m ==> 1 <= cl[x] && cl[x] <= L && (prev[x] == -1 <==> cl[x] == 1)
 //@+     && (prev[x] != -1 ==> 0 <= prev[x] && prev[x] < x && cl[prev[x]] == cl[x] - 1 && ord(cmp, vs[prev[x]], vs[x]) <= 0 && (strict ==> ord(cmp, vs[prev[x]], vs[x]) < 0))
 //@ pred tailsOK(vs Slice, cmp func(T, T) int, tails []int, cl imap[int], m int, strict bool) := (forall k int :: {tails[k]} 0 <= k && k < len(tails) ==> 0 <= tails[k] && tails[k] < m && cl[tails[k]] == k + 1)
 //@+     && (forall a int, b int :: {tails[a], tails[b]} 0 <= a && a < b && b < len(tails) ==> ord(cmp, vs[tails[a]], vs[tails[b]]) <= 0 && (strict ==> ord(cmp, vs[tails[a]], vs[tails[b]]) < 0))
